@@ -73,19 +73,6 @@ def design(ctx, name, c, timeout=600, workers=None):
                            timeout=timeout, workers=workers)
 
 
-def designs(ctx, items):
-    """[(name, consts)] model-checked side by side"""
-    n = max(2, (os.cpu_count() or 4) // max(1, len(items)))
-    with concurrent.futures.ThreadPoolExecutor(len(items)) as ex:
-        futs = [ex.submit(tlc.run, SPEC, cfg(ctx, 'design-' + name, with_dev(c, {}), INVARIANTS, PROPERTIES), timeout=900, workers=n)
-                for name, c in items]
-        for (name, _c), f in zip(items, futs):
-            r = f.result()
-            ctx.add_tlc('design-' + name, r)
-            if not r.ok:
-                raise tlc.TLCError('the design violates %s on configuration %s\n%s' % (r.violation, name, r.output[-3000:]))
-
-
 def coarse(x):
     if isinstance(x, (bool, int)) or x is None:
         return x
@@ -124,28 +111,63 @@ class Cover:
         self.violations = {}
 
 
-def attribute(m, c, steps):
+def attribute(m, c, primary):
     """which deviation of the code a violated clause goes back to"""
-    cl = m['clause']
-    on = [d for d in cd.DEVIATIONS if c.get(d)]
-    if cl in cd.CLAUSE_DEVIATION:
-        return cd.CLAUSE_DEVIATION[cl]
-    if cl == 'rollback':
-        st = steps[m['step']]['state'] if steps else None
-        if st is not None:
-            seen = st['obs']['seen'][m['obj']]
-            prev = steps[m['step'] - 1]['state'] if m['step'] > 0 else None
-            k = steps[m['step']]['args'][0]
-            if prev is not None:
-                snap = prev['sps'][k - 1]['snap'][m['obj']]
-                if bool(snap['own']) != bool(st['ob'][m['obj']]['own']) or seen['v'] == 'unloadable':
-                    return 'AliasCreating'
-                return 'SpBlobByName' if m['blob'] else 'AliasCreating'
-        return 'SpBlobByName' if m['blob'] and c.get('SpBlobByName') else 'AliasCreating'
-    return on[0] if len(on) == 1 else 'secondary'
+    d = cd.CLAUSE_DEVIATION.get(m['clause'])
+    if d:
+        return d
+    if primary:
+        return sorted(primary)[0]
+    on = [k for k in cd.DEVIATIONS if c.get(k)]
+    return on[0] if len(on) == 1 else 'none'
 
 
-def judge(ctx, cov, results, c, origin, steps_of=None):
+def annotate(results, c, steps_of, origin, have=None):
+    """turn monitor events and mismatches of replay results into violation records (signature, text, replay);
+    the replay payload is built for the first occurrence of a signature only (it needs the states of the path)"""
+    have = set() if have is None else have
+    for r in results:
+        vs = []
+        steps = None
+        primary = {}
+        for m in r['monitor']:
+            if m['clause'] in cd.CLAUSE_DEVIATION:
+                primary.setdefault((m['step'], m['obj']), set()).add(cd.CLAUSE_DEVIATION[m['clause']])
+        for m in r['monitor']:
+            dev = attribute(m, c, primary.get((m['step'], m['obj'])) or {x for v in primary.values() for x in v})
+            sig = {'kind': 'property', 'clause': m['clause'], 'deviation': dev}
+            key = 'property/%s/%s' % (m['clause'], dev)
+            rep = None
+            if key not in have:
+                have.add(key)
+                steps = steps or steps_of(r)
+                rep = _replay_of(r, c, steps, m['step'])
+            vs.append({'sig': sig, 'key': key, 'clause': m['clause'], 'replay': rep,
+                       'text': '[%s, %s] %s does not hold for object %s (%s) after %s: the real code is in the state TLC marked '
+                               '(conformance held on every step); behaviour: %s' % (
+                                   origin, r['kind'], m['clause'], m['obj'], m['role'], m['action'], ' '.join(m['prefix'][-14:]))})
+        mm = r['mismatch']
+        if mm:
+            sig = {'kind': 'conformance', 'action': mm['action'], 'where': mm['where'], 'spec': coarse(mm['spec']),
+                   'impl': coarse(mm['impl'])}
+            key = 'conformance/%s/%s/%s/%s' % (mm['action'], mm['where'], sig['spec'], sig['impl'])
+            rep = None
+            if key not in have:
+                have.add(key)
+                steps = steps or steps_of(r)
+                rep = _replay_of(r, c, steps, mm['step'])
+            vs.append({'sig': sig, 'key': key, 'clause': None, 'replay': rep,
+                       'text': '[%s, %s] the real connection diverges from ZConn at step %d %s(%s) [%s]: %s spec=%r impl=%r; '
+                               'behaviour: %s' % (origin, r['kind'], mm['step'], mm['action'], ','.join(mm['args']), mm['role'],
+                                                  mm['where'], mm['spec'], mm['impl'], ' '.join(mm['prefix'][-16:]))})
+        r['violations'] = vs
+        r.pop('monitor')
+        r['diverged'] = bool(r.pop('mismatch'))
+        r.pop('edges', None)
+    return results
+
+
+def judge(ctx, cov, results):
     for r in results:
         cov.tours += 1
         cov.steps += r['steps']
@@ -158,47 +180,22 @@ def judge(ctx, cov, results, c, origin, steps_of=None):
             cov.calls[a] = cov.calls.get(a, 0) + k
         h = hashlib.sha1('|'.join(r['sig']).encode()).hexdigest()[:16]
         cov.distinct.add(h)
-        if any(r['actions'].get(a) for a in cov.focus):
+        focus = any(r['actions'].get(a) for a in cov.focus)
+        if focus:
             cov.nontrivial.add(h)
-        if len(cov.samples) < 4 and len(r['sig']) >= 6 and any(r['actions'].get(a) for a in cov.focus):
+        if len(cov.samples) < 4 and len(r['sig']) >= 6 and focus:
             cov.samples.append(r['sig'][:40])
-        steps = steps_of(r) if steps_of else None
-        primary = {}
-        for m in r['monitor']:
-            if m['clause'] in cd.CLAUSE_DEVIATION or m['clause'] == 'rollback':
-                primary[(m['step'], m['obj'])] = attribute(m, c, steps)
-        for m in r['monitor']:
-            dev = primary.get((m['step'], m['obj'])) or attribute(m, c, steps)
-            if dev == 'secondary' and primary:
-                dev = sorted(primary.values())[0]
-            sig = {'kind': 'property', 'clause': m['clause'], 'deviation': dev}
-            key = '%s/%s' % (m['clause'], dev)
-            if m['clause'] not in cov.clauses:
-                cov.other_clauses[key] = cov.other_clauses.get(key, 0) + 1
+        for v in r['violations']:
+            if v['clause'] is not None and v['clause'] not in cov.clauses:
+                cov.other_clauses[v['key']] = cov.other_clauses.get(v['key'], 0) + 1
                 continue
-            cov.violations[key] = cov.violations.get(key, 0) + 1
-            ctx.violation(sig, '[%s, %s] %s does not hold for object %s (%s) after %s: the real code is in the state TLC '
-                          'marked (conformance held on every step); behaviour: %s' % (
-                              origin, r['kind'], m['clause'], m['obj'], m['role'], m['action'],
-                              ' '.join((m['prefix'])[-14:])),
-                          replay=_replay_of(r, c, steps, m['step']))
-        mm = r['mismatch']
-        if mm:
-            sig = {'kind': 'conformance', 'action': mm['action'], 'where': mm['where'], 'spec': coarse(mm['spec']),
-                   'impl': coarse(mm['impl'])}
-            key = 'conformance/%s/%s' % (mm['action'], mm['where'])
-            cov.violations[key] = cov.violations.get(key, 0) + 1
-            ctx.violation(sig, '[%s, %s] the real connection diverges from ZConn at step %d %s(%s) [%s]: %s spec=%r impl=%r; '
-                          'behaviour: %s' % (origin, r['kind'], mm['step'], mm['action'], ','.join(mm['args']), mm['role'],
-                                             mm['where'], mm['spec'], mm['impl'], ' '.join(mm['prefix'][-16:])),
-                          replay=_replay_of(r, c, steps, mm['step']))
+            cov.violations[v['key']] = cov.violations.get(v['key'], 0) + 1
+            ctx.violation(v['sig'], v['text'], replay=v['replay'])
 
 
 def _replay_of(r, c, steps, upto):
-    if steps is None:
-        return {'consts': c, 'opts': r['opts'], 'labels': r['sig']}
     # up to the end of the commit the step lies in
-    end = min(len(steps) - 1, upto + 1)
+    end = min(len(steps) - 1, upto)
     while end < len(steps) - 1 and steps[end]['state']['cm']['pc'] != 'idle':
         end += 1
     return {'consts': c, 'opts': r['opts'],
@@ -212,9 +209,10 @@ def trace_steps(trace):
     return steps
 
 
-def exhibit(ctx, cov, name, c, deviation, invariant, kinds, timeout=300):
-    """TLC's counterexample for one deviation constant, replayed on the real code.  -> does the tree show it?"""
-    cc = with_dev(c, {deviation: True})
+def exhibit(ctx, cov, name, c, dev, deviation, invariant, kinds, timeout=300):
+    """TLC's counterexample for one deviation constant (the others as established so far), replayed on the real
+    code.  -> does the tree show it?"""
+    cc = with_dev(c, dict(dev, **{deviation: True}))
     r = ctx.model_check(SPEC, cfg(ctx, 'cex-' + name, cc, [invariant]), name='as-code-' + name, expect_violation=invariant,
                         timeout=timeout, workers=1, extra=('-fp', '11'))
     steps = trace_steps(r.trace)
@@ -235,50 +233,70 @@ def exhibit(ctx, cov, name, c, deviation, invariant, kinds, timeout=300):
         for res in results:
             for m in res['monitor']:
                 m['step'] += 1           # steps[0] is the initial state here
-        judge(ctx, cov, results, cc, 'TLC counterexample ' + name, steps_of=lambda _r: steps)
+        judge(ctx, cov, annotate(results, cc, lambda _r: steps, 'TLC counterexample ' + name))
     else:
-        cov.cex[name]['diverges_at'] = [(res['mismatch'] or {}).get('action') for res in results]
+        cov.cex[name]['diverges_at'] = ['%s %s' % ((res['mismatch'] or {}).get('action'), (res['mismatch'] or {}).get('where'))
+                                        for res in results]
     return tree
 
 
-def _dump(args):
-    ctx, name, c, workers, timeout = args
+SMALL = dict(Obj=('a', 'b'), Edges='EdgesFlat', MaxCommit=1, MaxAct=3)
+
+
+def deviations(ctx, cov, kinds, blobs=False):
+    """decide, constant by constant, whether the tree under test shows the deviation"""
+    dev = {d: False for d in cd.DEVIATIONS}
+    dev['LeakUnstored'] = exhibit(ctx, cov, 'unstored-object-keeps-oid', cd.consts(Ops=('add', 'own', 'rm'), **SMALL), dev,
+                                  'LeakUnstored', 'NoOwnedUncommitted', kinds)
+    dev['InvalidateDoomed'] = exhibit(ctx, cov, 'added-object-emptied', cd.consts(Ops=('add', 'own', 'rm'), **SMALL), dev,
+                                      'InvalidateDoomed', 'NoStateLost', kinds)
+    if dev['InvalidateDoomed']:
+        exhibit(ctx, cov, 'savepoint-object-emptied', cd.consts(Ops=('add', 'sp'), MaxSp=1, **dict(SMALL, MaxAct=4)), dev,
+                'InvalidateDoomed', 'NoStateLost', kinds)
+    dev['AliasCreating'] = exhibit(ctx, cov, 'creating-map-shared', cd.consts(Ops=('add', 'sp'), MaxSp=2, **dict(SMALL, MaxAct=6)),
+                                   dev, 'AliasCreating', 'RollbackOwner', kinds)
+    if blobs:
+        bk = tuple(k for k in kinds if k != 'mapping')
+        dev['SpBlobByName'] = exhibit(ctx, cov, 'savepoint-blob-overwritten',
+                                      cd.consts(Obj=('a', 'k'), Blobs=('k',), Edges='EdgesBlob', Ops=('add', 'sp'), MaxSp=2,
+                                                MaxCommit=1, MaxAct=5), dev, 'SpBlobByName', 'RollbackValue', bk)
+    return dev
+
+
+def _tlc_job(args):
+    ctx, kind, name, c, workers, timeout = args
+    if kind == 'design':
+        r = tlc.run(SPEC, cfg(ctx, 'design-' + name, with_dev(c, {}), INVARIANTS, PROPERTIES), timeout=timeout, workers=workers)
+        return kind, name, r, None
     wd = os.path.join(ctx.scratch, 'graph-' + name)
     os.makedirs(wd, exist_ok=True)
     dot = os.path.join(wd, 'graph.dot')
     r = tlc.run(SPEC, cfg(ctx, 'graph-' + name, c, GRAPH_INVARIANTS, GRAPH_PROPERTIES), workdir=wd, dump_dot=dot,
                 timeout=timeout, workers=workers, extra=('-fp', '11'))
-    return name, r, dot
+    return kind, name, r, dot
 
 
-def graphs(ctx, cov, items, dev, kinds, budget=None, cap=250):
-    """items = [(name, consts)]: dump side by side, then plan and replay one after the other"""
-    items = [(name, with_dev(c, dev)) for name, c in items]
-    n = max(2, (os.cpu_count() or 4) // max(1, len(items)))
-    with concurrent.futures.ThreadPoolExecutor(len(items)) as ex:
-        dumps = list(ex.map(_dump, [(ctx, name, c, n, 1500) for name, c in items]))
-    for (name, c), (_n, r, dot) in zip(items, dumps):
-        if not r.ok:
-            raise tlc.TLCError('graph %s: %s\n%s' % (name, r.violation, r.output[-3000:]))
-        ctx.add_tlc('graph-' + name, r)
+def _graph_process(conn_, ctx, name, c, dot, distinct, kinds, budget, cap, workers):
+    """load, plan and replay one dumped graph (its own process: the replay workers are forked from it)"""
+    try:
+        if c['Blobs']:
+            kinds = tuple(k for k in kinds if k != 'mapping')
         g = cg.load(dot)
         os.remove(dot)
-        if len(g.raw) != r.distinct:
-            raise RuntimeError('dumped graph %s has %d states, TLC reported %d' % (name, len(g.raw), r.distinct))
-        b = budget.get(name) if isinstance(budget, dict) else budget
-        tours, st = cg.plan(g, ctx.seed, cap=cap, budget=b)
+        if len(g.raw) != distinct:
+            raise RuntimeError('dumped graph %s has %d states, TLC reported %d' % (name, len(g.raw), distinct))
+        tours, st = cg.plan(g, ctx.seed, cap=cap, budget=budget)
         cg.CURRENT, cg.TOURS = g, tours
         order = list(range(len(tours)))
         random.Random(ctx.seed).shuffle(order)
-        nj = max(1, min(len(order), (os.cpu_count() or 4) * 4))
         jobs = []
-        for ch in par.chunks(order, nj):
+        for ch in par.chunks(order, workers * 4):
             if ch:
                 jobs.append((ch, c, os.path.join(ctx.scratch, 'rp-%s-%d' % (name, ch[0])),
                              [job_opts(ctx, ti, kinds, c['Obj']) for ti in ch]))
-        results = [r2 for chunk in par.pmap(cg.replay_tours, jobs) for r2 in chunk]
+        results = [r2 for chunk in par.pmap(cg.replay_tours, jobs, workers=workers) for r2 in chunk]
 
-        def steps_of(res, g=g, tours=tours):
+        def steps_of(res):
             steps = [{'action': 'Init', 'args': [], 'state': g.state(g.init)}]
             for lab, node in tours[res['tour']]:
                 a, args = cd.split_label(lab)
@@ -290,13 +308,57 @@ def graphs(ctx, cov, items, dev, kinds, budget=None, cap=250):
                 m['step'] += 1
             if res['mismatch']:
                 res['mismatch']['step'] += 1
-        judge(ctx, cov, results, c, 'graph ' + name, steps_of=steps_of)
-        cg.CURRENT = cg.TOURS = None
         st['replayed_steps'] = sum(r2['steps'] for r2 in results)
         st['diverged_tours'] = sum(1 for r2 in results if r2['mismatch'])
+        annotate(results, c, steps_of, 'graph ' + name)
+        conn_.send(('ok', st, results))
+    except BaseException:
+        import traceback
+        conn_.send(('err', traceback.format_exc(), None))
+    finally:
+        conn_.close()
+
+
+def check_all(ctx, cov, items, dev, kinds, budget=None, cap=250, timeout=1500):
+    """items = [(name, consts)].  The design (deviations cleared) is model-checked and the graph of the model of the
+    code as it is (deviations as established) is dumped for every configuration, all TLC runs side by side; then
+    every graph is loaded, planned and replayed in a process of its own."""
+    import multiprocessing
+    as_code = [(name, with_dev(c, dev)) for name, c in items]
+    ncpu = os.cpu_count() or 4
+    w = max(2, ncpu // max(1, 2 * len(items)))
+    jobs = [(ctx, 'design', name, c, w, timeout) for name, c in items] + [(ctx, 'graph', name, c, w, timeout) for name, c in as_code]
+    with concurrent.futures.ThreadPoolExecutor(len(jobs)) as ex:
+        done = list(ex.map(_tlc_job, jobs))
+    dots = {}
+    for kind, name, r, dot in done:
+        ctx.add_tlc('%s-%s' % (kind, name), r)
+        if not r.ok:
+            raise tlc.TLCError('%s %s: %s violated\n%s' % (kind, name, r.violation, r.output[-3000:]))
+        if kind == 'graph':
+            dots[name] = (dot, r.distinct)
+    mp = multiprocessing.get_context('fork')
+    procs = []
+    pw = max(2, ncpu // max(1, len(items)))
+    for name, c in as_code:
+        a, b = mp.Pipe(False)
+        bud = budget.get(name) if isinstance(budget, dict) else budget
+        p = mp.Process(target=_graph_process, args=(b, ctx, name, c, dots[name][0], dots[name][1], kinds, bud, cap, pw))
+        p.start()
+        b.close()
+        procs.append((name, c, p, a))
+    for name, c, p, a in procs:
+        try:
+            status, st, results = a.recv()
+        except EOFError:
+            status, st, results = 'err', 'graph process %s died' % name, None
+        p.join()
+        if status != 'ok':
+            raise RuntimeError('graph %s failed:\n%s' % (name, st))
+        judge(ctx, cov, results)
         st['constants'] = {k: c[k] for k in ('Obj', 'Blobs', 'Edges', 'Pre', 'MaxSp', 'MaxCommit', 'MaxOther', 'MaxAct',
                                              'MaxTail', 'Ops')}
-        st['storages'] = list(kinds)
+        st['storages'] = [k for k in kinds if k != 'mapping' or not c['Blobs']]
         cov.graphs[name] = st
 
 
@@ -344,7 +406,9 @@ def replay(ctx, data, clauses, focus):
         m['step'] += 1
     if res['mismatch']:
         res['mismatch']['step'] += 1
-    judge(ctx, cov, [res], c, 'replay', steps_of=lambda _r: steps)
+    sig = res['sig'][:]
+    judge(ctx, cov, annotate([res], c, lambda _r: steps, 'replay'))
+    res['sig'] = sig
     return ctx.finish({'evaluations': 1, 'distinct_nontrivial': 1, 'rule': 'replay of one recorded behaviour',
                        'states': len(steps), 'transitions': max(1, len(steps) - 1), 'traces_validated_against_impl': 1,
                        'samples': [res['sig']], 'exhaustive': False}, ASSUME)
